@@ -341,10 +341,11 @@ func AnalyzeFlow(p *load.Program, r *Roles, depth int) *UnitResult {
 		col.Unproven("C03.R0,C10.R0", "Flow:fields", p.Position(0), "cannot identify the start-node and transition-table fields of Flow by their types", nil)
 		return res
 	}
+	var memInit map[*eng.Term]*eng.Term
 	run := func(root *ssa.Function, mons []eng.Monitor, mode Mode) *eng.Engine {
 		var e *eng.Engine
 		cfg := eng.Config{Prog: p.Prog, Pkg: p.SSA, Fset: p.Fset, Root: root, MaxDepth: depth,
-			Classify: r.Classifier(mode), IntLowerBound: budgetLowerBound(&e), Monitors: mons}
+			Classify: r.Classifier(mode), IntLowerBound: budgetLowerBound(&e), Monitors: mons, MemInit: memInit}
 		e = eng.New(cfg)
 		e.Run()
 		res.Stats.add(e, root)
@@ -355,6 +356,11 @@ func AnalyzeFlow(p *load.Program, r *Roles, depth int) *UnitResult {
 	}
 	// (*Flow).Exec
 	if fn := r.P.DeclaredMethod("Flow", "Exec"); fn != nil && len(fn.Params) == 3 {
+		// optional scalar settings of a flow (a step limit, a name, a flag) are analysed at the value
+		// NewFlow gives them: the properties speak about flows as constructed; a setting that is
+		// active by default shows up as a known non-zero value here
+		memInit = flowScalarDefaults(p, r, depth, eng.Param(0, fn.Params[0].Name()), si, ti)
+		defer func() { memInit = nil }()
 		mon := &FlowMon{R: r, Col: col, StartIdx: si, TransIdx: ti,
 			Recv: eng.Param(0, fn.Params[0].Name()), Ctx: eng.Param(1, fn.Params[1].Name()), PrepV: eng.Param(2, fn.Params[2].Name())}
 		run(fn, []eng.Monitor{mon}, Mode{SummariseRun: true, SummarisePool: true, SummariseCfg: true, SummariseToSlice: true})
@@ -400,6 +406,66 @@ func AnalyzeFlow(p *load.Program, r *Roles, depth int) *UnitResult {
 	// C10.R5: the lifecycle does not special-case flows
 	m.checkNoFlowSpecialCase()
 	return res
+}
+
+// flowScalarDefaults explores NewFlow and returns, for every field of Flow of a basic type whose
+// value in the constructed flow is a constant on all paths, the preloaded content of that field of
+// the receiver.
+func flowScalarDefaults(p *load.Program, r *Roles, depth int, recv *eng.Term, si, ti int) map[*eng.Term]*eng.Term {
+	fn := p.Func("NewFlow")
+	if fn == nil || r.Flow == nil {
+		return nil
+	}
+	st, ok := r.Flow.Underlying().(*types.Struct)
+	if !ok {
+		return nil
+	}
+	e := eng.New(eng.Config{Prog: p.Prog, Pkg: p.SSA, Fset: p.Fset, Root: fn, MaxDepth: depth, Classify: r.Classifier(Mode{})})
+	e.Run()
+	vals := map[int]*eng.Term{}
+	bad := map[int]bool{}
+	n := 0
+	for _, rt := range e.Returns {
+		if rt.Panic || len(rt.Vals) != 1 {
+			continue
+		}
+		n++
+		c := &eng.Ctx{E: e, St: rt.State}
+		obj := c.Mem(rt.Vals[0])
+		if obj == nil || obj.K != eng.KStruct {
+			return nil
+		}
+		for k := 0; k < st.NumFields() && k < len(obj.A); k++ {
+			if k == si || k == ti {
+				continue
+			}
+			if _, basic := st.Field(k).Type().Underlying().(*types.Basic); !basic {
+				continue
+			}
+			v := obj.A[k]
+			if v != nil && v.K == eng.KZero {
+				v = eng.ZeroOf(st.Field(k).Type())
+			}
+			if v == nil || v.K != eng.KConst {
+				bad[k] = true
+				continue
+			}
+			if old, seen := vals[k]; seen && old != v {
+				bad[k] = true
+			}
+			vals[k] = v
+		}
+	}
+	if n == 0 {
+		return nil
+	}
+	out := map[*eng.Term]*eng.Term{}
+	for k, v := range vals {
+		if !bad[k] {
+			out[eng.FieldAddr(recv, k)] = v
+		}
+	}
+	return out
 }
 
 type flowSmall struct {
